@@ -15,6 +15,8 @@
      is on the unrepaired tree (newline=None) it is false: C16_crlf_refuted.
    - "this holds for any way of spelling the path" needs the guard on os.makedirs; without it a bare
      spelling makes a completed block raise and drop every edit: C16_bare_path_refuted.
+   - "each file exactly once" is proved per normalised spelling; per file it is false when one file is reached under
+     a relative and an absolute spelling: C16_each_once_refuted (known finding).
    - that only reachable paths are visited (the converse of C16_each_once's closure) is not proved; the
      visit-once monitor and the correspondence (yielded keys, read trace) check it on every run.
    - parse/print/glob/path functions are Section variables: no law is assumed except print_parse (C01),
@@ -142,6 +144,7 @@ Proof. exact edit_file_raise_touches_nothing. Qed.
 
 Theorem C16_edit_file_any_spelling : forall W fs p p' body,
   canon W (ppath W p) = canon W (ppath W p') ->
+  traversable W fs (ppath W p) = traversable W fs (ppath W p') ->
   fst (fst (edit_file W fs p body)) = fst (fst (edit_file W fs p' body)) /\
   snd (edit_file W fs p body) = snd (edit_file W fs p' body).
 Proof. exact edit_file_spelling. Qed.
@@ -277,8 +280,28 @@ Example C16_bare_key_no_makedirs_ex : mk_ops (ex_W false true) (zs "m") = [].
 Proof. apply C16_bare_key_no_makedirs; vm_compute; reflexivity. Qed.
 Example C16_edit_file_any_spelling_ex :
   fst (fst (edit_file (ex_W false true) ex_fs (zs "m") (fun _ => Some (zs "Q"))))
-  = fst (fst (edit_file (ex_W false true) ex_fs (zs "/t/x/..//./m") (fun _ => Some (zs "Q")))).
-Proof. apply C16_edit_file_any_spelling. vm_compute. reflexivity. Qed.
+  = fst (fst (edit_file (ex_W false true) ex_fs (zs "//t/../t//./m") (fun _ => Some (zs "Q")))).
+Proof. apply C16_edit_file_any_spelling; vm_compute; reflexivity. Qed.
+(* ... but a spelling through a directory that does not exist is not a spelling of the file: the OS refuses it *)
+Example C16_edit_file_unresolvable_spelling_ex :
+  snd (edit_file (ex_W false true) ex_fs (zs "/t/x/..//./m") (fun _ => Some (zs "Q"))) = EErr EOSError.
+Proof. vm_compute. reflexivity. Qed.
+
+(* "exactly once" holds per SPELLING (C16_each_once: NoDup (keys files)), not per FILE: a file included once by a
+   relative and once by an absolute name gets two keys, is read and parsed twice and is yielded as two models
+   (known finding C16:same-file-under-two-spellings; keys are what the user indexes the dict with) *)
+Theorem C16_each_once_refuted :
+  exists W fuel fs root tr texts files k k',
+    bfs W fuel fs [normpath W root] [] [] = (tr, EOk (texts, files)) /\
+    k <> k' /\ In (OpRead k) tr /\ In (OpRead k') tr /\ In k (keys files) /\ In k' (keys files) /\
+    canon W k = canon W k'.
+Proof.
+  exists ex_WA, 4%nat, (mkfs (c_files ex_caseA) (c_dirs ex_caseA)), (zs "m"), (fst ex_bfsA),
+         (match snd ex_bfsA with EOk (t, _) => t | _ => [] end), (match snd ex_bfsA with EOk (_, f) => f | _ => [] end),
+         (zs "a"), (zs "/t/a").
+  split; [vm_compute; reflexivity|]. split; [vm_compute; discriminate|].
+  repeat split; vm_compute; tauto.
+Qed.
 
 (* ---- the two statements the unrepaired code refutes ---------------------------------------------- *)
 (* newline=None: the body replaces the first character of m ("A" -> "Z"), everything after it is printed
